@@ -39,8 +39,8 @@ var c13Quick = func() []int {
 		if len(f) >= 2 && (f[1] == "3" || f[1] == "-1" || f[1] == "4294967297") && !strings.HasPrefix(l, "!") {
 			continue
 		}
-		if l == "TOP 1 x" || l == "TOP 99 1" || l == "TOP x 1" || l == "TOP 1 0" {
-			continue
+		if l == "TOP 1 x" || l == "TOP 99 1" || l == "TOP x 1" || l == "TOP 1 0" || l == "USER U+tag@x.test" || l == "\t " {
+			continue // (the non-canonical login is the prelude of the logged-in search in both tiers)
 		}
 		idx = append(idx, i)
 	}
